@@ -846,6 +846,7 @@ func consRun(args []string) int {
 	maxPerEntity := fs.Int("maxperentity", 1, "scheduler MaxValidatorsPerEntity")
 	maxGroup := fs.Int("maxgroup", 2, "largest primary committee size requested by runtime registrations")
 	noRounds := fs.Bool("norounds", false, "do not submit executor commitments")
+	tiny := fs.Bool("tinystake", false, "stake thresholds of 1-2 base units and escrows around them and around one voting-power unit (16)")
 	minTransact := fs.Int64("mintransact", 0, "staking MinTransactBalance")
 	vrfMode := fs.Bool("vrf", false, "VRF beacon backend: nodes submit VRF proofs, elections use them")
 	vrfThr := fs.Uint64("vrfthreshold", 2, "VRF backend: proofs needed for a high-quality alpha")
@@ -874,7 +875,7 @@ func consRun(args []string) int {
 	}
 	defer w.Close()
 	cfg := cnCfg{Validators: *vals, Users: *users, EpochInterval: *interval, Seed: *seed, ChainID: fmt.Sprintf("verif-chain-%d", *seed),
-		MaxValidators: *maxVals, MaxPerEntity: *maxPerEntity, ExtraNodes: *extraNodes, TiedStake: *tied, VRF: *vrfMode, VRFThreshold: *vrfThr, MinTransact: *minTransact}
+		MaxValidators: *maxVals, MaxPerEntity: *maxPerEntity, ExtraNodes: *extraNodes, TiedStake: *tied, VRF: *vrfMode, VRFThreshold: *vrfThr, MinTransact: *minTransact, TinyStake: *tiny}
 	net, err := newNet(cfg, *scratch)
 	if err != nil {
 		fmt.Fprintln(os.Stderr, "net:", err)
